@@ -399,9 +399,8 @@ func c03r4(c *Ctx, id string) {
 			} else if isDocKind(kind) {
 				c.Fail(id, construct+":eventtime", a.Pos(), "document wrapper without EventTime")
 			}
-			if oa := asAlloc(tab["Offset"]); oa != nil {
-				ot, _ := allocTable(oa)
-				got := w.Origin(ot["SeqNo"])
+			if ol, ok := w.litOf(tab["Offset"]); ok {
+				got := ol.Table["SeqNo"]
 				c.Check(got == e+".SeqNo", id, construct+":seqno", a.Pos(), "Offset.SeqNo ← "+got, "Offset.SeqNo ← "+got+", expected "+e+".SeqNo")
 			} else {
 				c.Fail(id, construct+":seqno", a.Pos(), "wrapper's Offset is not a fresh literal: %s", w.Origin(tab["Offset"]))
